@@ -190,6 +190,52 @@ func H_C02_seed() {
 	vCover("C02s.done")
 }
 
+// H_C02_seed2: sessions that empty the database. An Open that finds the index empty
+// draws a NEW hash seed (fresh arbitrary value per call); whatever the sequence of
+// non-empty / emptied / refilled sessions (3 symbolic session kinds), the seed in
+// use when a session closes is the one the next session works with whenever the
+// index is not empty, and every key is found.
+func H_C02_seed2() {
+	vFlag("freshSeeds", 1)
+	opts := smallOpts(fs.Mem, 2, 20)
+	dir := "c02s2"
+	db, err := Open(dir, opts)
+	vAssert(err == nil, "C02s2.open")
+	if err != nil {
+		return
+	}
+	r := newRef(1, 8)
+	for session := 0; session < 4; session++ {
+		// 0: put the key, 1: delete it, 2: nothing
+		kind := 0
+		if session > 0 {
+			kind = vChoice("session", 3)
+		}
+		switch kind {
+		case 0:
+			applyOp(db, r, 0, 0, 2, "C02s2.put")
+		case 1:
+			applyOp(db, r, 1, 0, 2, "C02s2.delete")
+		}
+		checkReads(db, r, "C02s2.in-session")
+		seed := db.hashSeed
+		nonEmpty := db.Count() > 0
+		vAssert(db.Close() == nil, "C02s2.close")
+		db, err = Open(dir, opts)
+		vAssert(err == nil, "C02s2.reopen")
+		if err != nil {
+			return
+		}
+		if nonEmpty {
+			vAssert(db.hashSeed == seed, "C02s2.hash-seed-survives-clean-restart")
+		} else {
+			vCover("C02s2.emptied-database-reopened")
+		}
+		checkReads(db, r, "C02s2.contents")
+	}
+	vCover("C02s2.done")
+}
+
 // H_C02_closeerr: one write issued by Close (data, bucket or metadata payload;
 // symbolic choice which) fails with an I/O error. Either Close reports an error,
 // or it returns nil - and then the next Open must succeed with the same contents.
